@@ -1311,8 +1311,11 @@ PPL::Grid::add_grid_generator(const Grid_Generator& g) {
   }
   else {
     PPL_ASSERT(generators_are_up_to_date());
+    // `g' may be (a reference to) a row of `gen_sys' itself,
+    // which the insertion invalidates.
+    const bool g_is_parameter_or_point = g.is_parameter_or_point();
     gen_sys.insert(g);
-    if (g.is_parameter_or_point()) {
+    if (g_is_parameter_or_point) {
       normalize_divisors(gen_sys);
     }
   }
